@@ -109,6 +109,22 @@ def gswap[T](u: T, w: T) -> None:
     mem_swap(u, w)
 
 @guppy
+def upd_first(xs: array[int, 2], ys: array[int, 2] @owned) -> None:
+    xs[0] = 100
+
+@guppy
+def upd_second(xs: array[int, 2] @owned, ys: array[int, 2]) -> None:
+    ys[1] = 200
+
+@guppy
+def app_owned_borrowed(f: Callable[[array[int, 2] @owned, array[int, 2]], None], a: array[int, 2] @owned, b: array[int, 2]) -> None:
+    f(a, b)
+
+@guppy
+def app_borrowed_owned(f: Callable[[array[int, 2], array[int, 2] @owned], None], a: array[int, 2], b: array[int, 2] @owned) -> None:
+    f(a, b)
+
+@guppy
 def add_into(src: array[int, 2], dst: array[int, 2]) -> None:
     dst[0] += src[0]
     src[1] += 100
@@ -290,6 +306,12 @@ def mechanism_programs(tier):
                 continue     # the oracle's rewrite of the swap needs an assignable, side-effect-free place
             out.append(("int-array", f"{pname}", f"mechanism:{fn}", list(setup) + extra + ["zz2 = array(70, 80)"] + lines + obs + eobs +
                         ['result("zz20", zz2[0])', 'result("zz21", zz2[1])'], nidx))
+    # a function handed to a Callable parameter whose ownership annotations differ from the function's: must be
+    # rejected, or behave as the function does
+    for app, fn in itertools.product(("app_owned_borrowed", "app_borrowed_owned"), ("upd_first", "upd_second")):
+        out.append(("int-array", "var", f"mechanism:callable-flags:{app}({fn})",
+                    ["a = array(1, 2)", "zz = array(7, 8)", f"{app}({fn}, a, zz)"] +
+                    (['result("zz0", zz[0])', 'result("zz1", zz[1])'] if app == "app_owned_borrowed" else ['result("a0", a[0])', 'result("a1", a[1])']), 0))
     for (pname, setup, place, obs, nidx) in s_places():
         for fn, lines in {"method-borrowed-self": [f"{place}.bump()"],
                           "method-borrowed-self-and-arg": ["zz = array(7, 8)", f"{place}.bump_by(zz)", 'result("zz0", zz[0])', 'result("zz1", zz[1])'],
